@@ -1,0 +1,127 @@
+//go:build verif
+
+package index
+
+import (
+	"sync"
+
+	"github.com/lindb/lindb/kv"
+	"github.com/lindb/lindb/kv/version"
+)
+
+// This file only exists under the build tag "verif" (external verification harness, property C10).
+// It lets the harness observe the calls the index stores make to their kv family (NewFlusher,
+// GetSnapshot) and to the kv flusher they got from it (Commit, Release): these calls are the only
+// points of a dictionary/index flush between the commit of the new file and the release of the frozen
+// memory store (no file-system hook fires there).
+// Nothing changes while no seam is installed.
+
+// VerifFamilySeam is called before (before=true) and after (before=false) a call of an index store
+// to its kv family. store = name(path) of the kv store, family = family name, op = "newFlusher" |
+// "getSnapshot" | "commit" | "release" (the last two: Commit/Release of the flusher). storeLocked
+// tells whether the calling store's own lock is held exclusively at that moment (TryRLock probe, released
+// at once): an operation of another goroutine that needs the store would wait here.
+type VerifFamilySeam func(store, family, op string, before, storeLocked bool)
+
+type verifFamily struct {
+	kv.Family
+	store  string
+	locked func() bool
+	seam   VerifFamilySeam
+}
+
+func (f *verifFamily) NewFlusher() kv.Flusher {
+	f.seam(f.store, f.Family.Name(), "newFlusher", true, f.locked())
+	flusher := f.Family.NewFlusher()
+	f.seam(f.store, f.Family.Name(), "newFlusher", false, f.locked())
+	return &verifFlusher{Flusher: flusher, f: f}
+}
+
+type verifFlusher struct {
+	kv.Flusher
+	f *verifFamily
+}
+
+func (vf *verifFlusher) Commit() error {
+	f := vf.f
+	f.seam(f.store, f.Family.Name(), "commit", true, f.locked())
+	err := vf.Flusher.Commit()
+	f.seam(f.store, f.Family.Name(), "commit", false, f.locked())
+	return err
+}
+
+func (vf *verifFlusher) Release() {
+	f := vf.f
+	f.seam(f.store, f.Family.Name(), "release", true, f.locked())
+	vf.Flusher.Release()
+	f.seam(f.store, f.Family.Name(), "release", false, f.locked())
+}
+
+func (f *verifFamily) GetSnapshot() version.Snapshot {
+	f.seam(f.store, f.Family.Name(), "getSnapshot", true, f.locked())
+	snapshot := f.Family.GetSnapshot()
+	f.seam(f.store, f.Family.Name(), "getSnapshot", false, f.locked())
+	return snapshot
+}
+
+func verifLockProbe(lock *sync.RWMutex) func() bool {
+	return func() bool {
+		if lock.TryRLock() {
+			lock.RUnlock()
+			return false
+		}
+		return true
+	}
+}
+
+func verifWrap(store string, family *kv.Family, lock *sync.RWMutex, seam VerifFamilySeam, restore *[]func()) {
+	if _, ok := (*family).(*verifFamily); ok {
+		return
+	}
+	old := *family
+	*family = &verifFamily{Family: old, store: store, locked: verifLockProbe(lock), seam: seam}
+	*restore = append(*restore, func() { *family = old })
+}
+
+func verifWrapKVStore(store string, s IndexKVStore, seam VerifFamilySeam, restore *[]func()) {
+	if ks, ok := s.(*indexKVStore); ok {
+		verifWrap(store, &ks.family, &ks.lock, seam, restore)
+	}
+}
+
+// VerifWrapMetaFamilies makes the stores of the metric metadata database report their kv family calls
+// to seam until the returned function is called. Call both only while no operation is running.
+func VerifWrapMetaFamilies(db MetricMetaDatabase, seam VerifFamilySeam) (restore func()) {
+	var rs []func()
+	if mm, ok := db.(*metricMetaDatabase); ok {
+		name := mm.kvStore.Name()
+		verifWrapKVStore(name, mm.ns, seam, &rs)
+		verifWrapKVStore(name, mm.metric, seam, &rs)
+		verifWrapKVStore(name, mm.tagValue, seam, &rs)
+		if ss, ok := mm.schemaStore.(*metricSchemaStore); ok {
+			verifWrap(name, &ss.family, &ss.lock, seam, &rs)
+		}
+	}
+	return func() {
+		for _, r := range rs {
+			r()
+		}
+	}
+}
+
+// VerifWrapIndexFamilies does the same for the stores of a shard's index database.
+func VerifWrapIndexFamilies(db MetricIndexDatabase, seam VerifFamilySeam) (restore func()) {
+	var rs []func()
+	if index, ok := db.(*metricIndexDatabase); ok {
+		name := index.kvStore.Name()
+		verifWrapKVStore(name, index.series, seam, &rs)
+		verifWrap(name, &index.metricInverted.family, &index.metricInverted.lock, seam, &rs)
+		verifWrap(name, &index.inverted.family, &index.inverted.lock, seam, &rs)
+		verifWrap(name, &index.forward.family, &index.forward.lock, seam, &rs)
+	}
+	return func() {
+		for _, r := range rs {
+			r()
+		}
+	}
+}
